@@ -15,7 +15,8 @@ R5  wrapper metadata and idempotence (``func_wrapped`` reaches ``update_wrapper`
     reader of the "already beartyped" marker agree; an already marked class is returned untouched);
 R6  ownership of the function marker (shared with C14.R7);
 R7  class route == per-member route (shared with C05.R6);
-R8  the store behind the class marker: set/get of the type attribute cache, interpreted.
+R8  the store behind the class marker: set/get of the type attribute cache, interpreted;
+R9  decoration mode vs configuration mode of the public decorator, interpreted.
 """
 from __future__ import annotations
 
@@ -178,6 +179,9 @@ def run(ctx):
 
     # ---- R8 ----------------------------------------------------------------------
     _class_marker_roundtrip(ctx, 'C13.R8')
+
+    # ---- R9 ----------------------------------------------------------------------
+    _decorator_modes(ctx, 'C13.R9')
 
 
 # ---------------------------------------------------------------------------------------------
@@ -518,6 +522,8 @@ def _class_marker_roundtrip(ctx, RULE):
 
         def __init__(self, name, sizeof):
             self.name, self.__sizeof__ = name, sizeof
+            self.__name__ = self.__qualname__ = name
+            self.__module__ = 'user_module'
 
         def __repr__(self):
             return f'<class {self.name}>'
@@ -527,7 +533,7 @@ def _class_marker_roundtrip(ctx, RULE):
         if isinstance(obj, _Fn):
             return obj.pure
         if isinstance(obj, _Cls):
-            return True
+            return True if (isinstance(c, Sym) and c.name == 'type') or not isinstance(c, Sym) else None
         return saved_inst(obj, c) if saved_inst else None
     F.isinstance_hook = inst
 
@@ -575,6 +581,11 @@ def _class_marker_roundtrip(ctx, RULE):
                        f'nothing is read back for {what.replace("-", " ")}', r is sent or r == sent, f'evaluates to {r!r}')
             call(setter, sub, 'k', 'sub-value')
             call(setter, sup, 'j', 'second')
+            twin = _Cls('Sub', sup.__sizeof__)       # another class of the same name and module (a class factory called twice)
+            r = call(getter, twin, 'k')
+            ctx.ob(RULE, f'type-attr-cache:not-read-for-same-named-class:{tag}', cm.where(getter.node),
+                   'nothing is read back for a distinct class that merely shares name and module with the one stored for',
+                   r is sent or r == sent, f'evaluates to {r!r}')
             r = (call(getter, sup, 'k'), call(getter, sub, 'k'), call(getter, sup, 'j'))
             ctx.ob(RULE, f'type-attr-cache:later-stores-keep-earlier:{tag}', cm.where(setter.node),
                    'storing for a subclass or under another name keeps what was stored before',
@@ -587,3 +598,78 @@ def _class_marker_roundtrip(ctx, RULE):
         F.ext_stubs.update(F.ext_stubs_saved)
         F.apply_nested_decorators = False
         F.patch_global(CACHE, 'object_attr_cache_lock', old_lock)
+
+
+def _decorator_modes(ctx, RULE):
+    """The public decorator, interpreted: decoration mode for every object that is not None (truthy or falsy),
+    configuration mode otherwise."""
+    from sa.fold import AObj, FuncVal, _Abort, _Raise, _call_function
+    from sa.gen import AConf
+    from . import _gen
+    repo = ctx.repo
+    F = _gen.engines(ctx)[0].f
+    DC = 'beartype._decor.decorcache'
+    dm = repo.mod(DC)
+    fn = F.const(DC, 'beartype')
+    ctx.require(isinstance(fn, FuncVal), 'anchor vanished: beartype._decor.decorcache.beartype')
+    ctx.rule(RULE, 'the public decorator, interpreted over {object: a truthy class, a falsy class (metaclass __len__ == 0 / '
+             '__bool__ False), a falsy callable object, None} × {default configuration, another configuration}: any '
+             'object other than None is decorated under the configuration and the result of decorating it is returned; '
+             'without an object a decorator is returned that decorates what it is given under that configuration, and '
+             'asking twice for the same configuration yields the same decorator')
+
+    class _Obj(AObj):
+        def __init__(self, what, truthy):
+            self.what, self.truthy = what, truthy
+
+        def __bool__(self):
+            return self.truthy
+
+        def __repr__(self):
+            return f'<{self.what}>'
+    saved_stubs = dict(F.stubs)
+    F.stubs['beartype._conf.confmain.die_unless_conf'] = lambda e, a, k: None
+    F.stubs['beartype._conf.confcommon.die_unless_conf'] = lambda e, a, k: None
+    F.stubs['beartype._conf.conftest.die_unless_conf'] = lambda e, a, k: None
+    F.stubs['beartype._decor.decorcore.beartype_object'] = lambda e, a, k: ('DECORATED', a[0] if a else k.get('obj'), a[1] if len(a) > 1 else k.get('conf'))
+    memos = [v for n, v in F.module_env(DC).items() if isinstance(v, dict) and not n.startswith('__')]
+    default = F.value(DC, 'BEARTYPE_CONF_DEFAULT') if 'BEARTYPE_CONF_DEFAULT' in F.module_env(DC) else None
+    other = AConf()
+    old_default = F.patch_global(DC, 'BEARTYPE_CONF_DEFAULT', AConf())
+    try:
+        dflt = F.module_env(DC)['BEARTYPE_CONF_DEFAULT']
+        for cname, conf in (('default', None), ('other', other)):
+            kw = {} if conf is None else {'conf': conf}
+            wantc = dflt if conf is None else conf
+            for o in (_Obj('truthy class', True), _Obj('falsy class', False), _Obj('falsy callable object', False)):
+                for m_ in memos:
+                    m_.clear()
+                try:
+                    out = _call_function(F, fn, [o], dict(kw), 1)
+                except (_Abort, _Raise) as ex:
+                    ctx.require(False, f'cannot interpret the public decorator: {ex}')
+                ctx.ob(RULE, f'decorator:decoration-mode:{o.what}:conf={cname}', dm.where(fn.node),
+                       'an object other than None is decorated under the configuration; the decorated object is returned',
+                       isinstance(out, tuple) and out[:1] == ('DECORATED',) and out[1] is o and out[2] is wantc,
+                       f'beartype({o!r}) evaluates to {out!r}')
+            for m_ in memos:
+                m_.clear()
+            try:
+                d1 = _call_function(F, fn, [], dict(kw), 1)
+                d2 = _call_function(F, fn, [], dict(kw), 1)
+                x = _Obj('falsy class', False)
+                r = F.call(d1, [x]) if isinstance(d1, FuncVal) else None
+            except (_Abort, _Raise) as ex:
+                ctx.require(False, f'cannot interpret the public decorator (configuration mode): {ex}')
+            ctx.ob(RULE, f'decorator:configuration-mode:conf={cname}', dm.where(fn.node),
+                   'without an object a decorator is returned that decorates its argument under the configuration',
+                   isinstance(d1, FuncVal) and isinstance(r, tuple) and r[:1] == ('DECORATED',) and r[1] is x and r[2] is wantc,
+                   f'beartype(conf=…) evaluates to {d1!r}; applied to an object: {r!r}')
+            ctx.ob(RULE, f'decorator:configuration-mode-memoised:conf={cname}', dm.where(fn.node),
+                   'the decorator of a configuration is created once', d1 is d2 or d1 == d2, f'{d1!r} then {d2!r}')
+    finally:
+        for m_ in memos:
+            m_.clear()
+        F.patch_global(DC, 'BEARTYPE_CONF_DEFAULT', old_default)
+        F.stubs.clear()
+        F.stubs.update(saved_stubs)
